@@ -11,6 +11,9 @@ checks = {
  "C03": dict(technique="runtime monitoring: generated slice/string programs executed under real /bin/bash, judged by an independent reference interpreter",
    text="Differential runtime monitoring of slice and string operations: all substring index pairs up to length 12, growth/gap-fill for old lengths 0..12, aliasing chains, copy for all length pairs, range forms, plus a random sweep with arbitrary int index expressions.",
    note="Trusted: RefLang interpreter (slices as shared growable vectors), /bin/bash 5.2. Undefined cases (out-of-range, resize while ranging, copy into longer dst) discarded.", ref="§3 C03"),
+ "C12": dict(technique="runtime monitoring: metamorphic comparison of the real Transpile's output for a program and its token-preserving re-layouts",
+   text="Metamorphic monitor: the suite's own programs, std/, examples/, generated and hand-written programs are re-laid-out (CRLF, re-indentation, trailing blanks, blank/comment lines at every break, comments and blanks in every gap, final newline, blank removal) as whole-file and single-site edits; a variant counts only when the reference lexer confirms the token list is preserved; acceptance and emitted bytes must be identical for both targets.",
+   note="Trusted: the reference lexer's notion of token preservation. Only the main file is re-laid-out.", ref="§3 C12"),
  "C11": dict(technique="runtime monitoring: generated token lists rendered to text and fed to the real Tokenize; (type, value, row, column) compared with the generating list, reference lexer and go/scanner as witnesses",
    text="Generator-based monitor of the real lexer: every vocabulary token alone, all ordered pairs of ~110 class representatives x 9 separator kinds, negative-literal contexts, comment / multi-line-token position cases, random sequences; the oracle is the generating token list with renderer-counted positions, cross-checked by an independent maximal-munch reference lexer and by go/scanner; error cases for unterminated literals and bytes outside the grammar.",
    note="Trusted: the generating list + reference lexer (cross-checked against go/scanner on Go-compatible text). Float spellings, '-' after '}'/'++'/'--', byte-vs-character columns after non-ASCII text are not asserted.", ref="§3 C11"),
